@@ -1,7 +1,7 @@
 (** C04 — default matching: same name, compatible type, only opted-in conversions. *)
 From Coq Require Import String.
 From Cvg Require Import Base GoTypes Re Unicode Matcher Dump Options Front Builder.
-From Cvg.proofs Require Import BuilderProofs MatchProofs.
+From Cvg.proofs Require Import BuilderProofs MatchProofs TypeLaws.
 Open Scope N_scope.
 
 (** Where a default-matched entry can come from. For every destination node and
@@ -78,3 +78,24 @@ Theorem C04_no_candidate_no_match :
     name_match_with d o mpos s2s lhs R = (Ok a, ev) -> a = Some (ANoMatch lhs).
 Proof. exact name_match_no_candidate. Qed.
 Print Assumptions C04_no_candidate_no_match.
+
+(** In particular a first candidate of exactly the field's type (not a slice) is always assigned
+    as it stands: the model's assignability contains identity, which is reflexive (TypeLaws.v:
+    the model of go/types' relations obeys the laws the Go specification states for them). *)
+Theorem C04_same_type_candidate_is_assigned :
+  forall d o mpos s2s lhs R cands r,
+    find (cand_ok d o lhs R) cands = Some r ->
+    expr_type r = expr_type lhs -> is_slice (expr_type lhs) = false ->
+    name_pass d o mpos s2s lhs R cands = ret (PDone (Some (ASimple lhs (RNode r) (returns_error r))) false).
+Proof.
+  intros d o mpos s2s lhs R cands r Hf Ht Hs.
+  apply name_pass_assignable; [exact Hf|now rewrite Hs|rewrite Ht; apply assignable_refl].
+Qed.
+Print Assumptions C04_same_type_candidate_is_assigned.
+
+Theorem C04_relation_laws :
+  (forall igt t, identical igt t t = true) /\
+  (forall E V T, identical false V T = true -> assignable E V T = true) /\
+  (forall E V T, assignable E V T = true -> convertible E V T = true).
+Proof. exact (conj identical_refl (conj assignable_of_identical convertible_of_assignable)). Qed.
+Print Assumptions C04_relation_laws.
